@@ -15,7 +15,7 @@ EXPLANATION = (
     "conquest order and predictions depend on the weights only through their order type; (b) each of the five "
     "Euclidean identifiers has normal form g(sum((x-y)^2)) with g'(s) > 0 for s > 0 and g(0) = 0 (sympy), so "
     "they induce the same order type. Permutation clause, necessary condition only: node indices are nominal "
-    "(kind rules K3/K4: never ordered, never in arithmetic), so no result can depend on an index VALUE; "
+    "(kind rules K1/K3/K4: every node loop covers the whole graph - a partial range such as range(n - 1) is an ordinal, not a node index -, indices are never ordered and never used in arithmetic), so no result can depend on an index VALUE; "
     "invariance itself also needs uniqueness of the forest under tie-free data, which is graph theory."
 )
 
@@ -32,7 +32,7 @@ def check(chk, repo):
         n_sites += len(weight_terms(w))
         st = check_order_only(rep, w, "")
         uses += st["uses"]
-        run_kinds(rep, w, rules=("K3", "K4"))
+        run_kinds(rep, w, rules=("K1", "K3", "K4"))
     chk.floor("arc-weight sites in supervised / semi-supervised fit and predict", n_sites, 6)
     chk.floor("uses of weight-derived values checked", uses, 30)
     M = Metrics(repo)
